@@ -78,8 +78,14 @@ def l2_monitor(spec, rec, obs):
                 continue
             after = ls[ls.index(full) + 1:]
             if any(l != full for l in after):
-                out2.append("retry of the collecting invocation (event %s) got %s from collect_events after a failed attempt "
-                            "had received the full set %s (buffered events lost)" % (i, after, full))
+                out2.append("%s of the collecting invocation (event %s) got %s from collect_events after %s "
+                            "had received the full set %s (buffered events lost)"
+                            % ("the replay" if spec.get("collect_then_wait") else "retry", i, after,
+                               "the attempt that then suspended in wait_for_event" if spec.get("collect_then_wait") else "a failed attempt", full))
+        if spec.get("collect_then_wait"):
+            if obs.done and obs.exception is not None and not out2:
+                out2.append("a step that collected a full set and then waited for an event never finished: %r" % (obs.exception,))
+            return out2, dict(returned_lists=len(lists), collect_then_wait_runs=1 if any(len(l) > 1 for l in seq.values()) else 0)
         return out2, dict(returned_lists=len(lists), collect_then_fail_runs=1)
     dup = [i for i, c in used.items() if c > 1]
     if dup:
@@ -108,7 +114,8 @@ def run(ctx):
     ctx.rule = ("L0: random (buffers, incoming event, expected list with multiplicities, buffer id) through the real "
                 "InternalContext.collect_events vs Model/Collect.v, plus the statement on the real output; L1: reducer "
                 "transitions with AddCollectedEvent (fresh / stale snapshot); L2: repeated collections with 1-4 workers on "
-                "the real engine, invocations gated before collect_events so snapshots go stale; distinct key = "
+                "the real engine, invocations gated before collect_events so snapshots go stale, collecting invocations that fail "
+                "and are retried or suspend in wait_for_event and are replayed; distinct key = "
                 "(expected, buffer shape, outcome) / history index / run facts")
     ctx.prove()
     rng = random.Random(ctx.seed * 17 + 9)
@@ -145,8 +152,9 @@ def run(ctx):
     for k in ("returned", "buffered", "dropped"):
         ctx.require_coverage("collect", k, kinds[k], 20)
     run_l1(ctx, ctx.n(100, 4000), l1_monitor, THEOREMS, need=("collect_rerun",))
-    fails2, facts = run_l2(ctx, [S.collect2, S.fanout, S.collectfail], ctx.n(135, 4000), l2_monitor,
-                           need=(("returned_lists", 50), ("reruns_on_stale_snapshot", 10), ("runs_multi_worker", 20), ("collect_then_fail_runs", 10)))
+    fails2, facts = run_l2(ctx, [S.collect2, S.fanout, S.collectfail, S.collectwait], ctx.n(180, 4000), l2_monitor,
+                           need=(("returned_lists", 50), ("reruns_on_stale_snapshot", 10), ("runs_multi_worker", 20), ("collect_then_fail_runs", 10),
+                                 ("collect_then_wait_runs", 10)))
     known = [f for f in fails2 if f["why"].startswith(K_DOUBLE)]
     other = [f for f in fails2 if not f["why"].startswith(K_DOUBLE)]
     if known:
